@@ -25,6 +25,33 @@ def random_alignment(rng, recs, rate=0.3):
     return [(n, r) for (n, _), r in zip(recs, rows)]
 
 
+def local_edits(rng, rows):
+    """the test alignment differs from the reference in a few places only (same width): single residue/gap swaps, and pairs of opposite shifts of
+    the same letter within one row (e.g. 'A-GGG-A' -> '-AGGGA-'), as a refinement step of an aligner produces them. Returns (rows, edits)."""
+    out = [list(s) for _, s in rows]
+    nedit = 0
+    for _ in range(rng.randint(1, 4)):
+        k = rng.randrange(len(out))
+        row = out[k]
+        right = [i for i in range(len(row) - 1) if row[i] != "-" and row[i + 1] == "-"]
+        left = [i for i in range(len(row) - 1) if row[i] == "-" and row[i + 1] != "-"]
+        mode = rng.choice(["paired", "paired", "single"])
+        if mode == "paired":
+            cand = [(i, j) for i in right for j in left if abs(i - j) >= 2 and row[i].upper() == row[j + 1].upper()]
+            if cand:
+                i, j = rng.choice(cand[:2000])
+                row[i], row[i + 1] = row[i + 1], row[i]
+                row[j], row[j + 1] = row[j + 1], row[j]
+                nedit += 2
+                continue
+        pool = right + left
+        if pool:
+            i = rng.choice(pool)
+            row[i], row[i + 1] = row[i + 1], row[i]
+            nedit += 1
+    return [(n, "".join(r)) for (n, _), r in zip(rows, out)], nedit
+
+
 def add_allgap_columns(rng, rows, k):
     L = len(rows[0][1])
     pos = sorted(rng.randint(0, L) for _ in range(k))
@@ -70,7 +97,7 @@ def run_case(ck, paths, reftool, idx, rel=None):
         seqs = [gen.random_case(rng, s, 0.4) for s in seqs]
     names = gen.names(rng, n, rng.choice(["s", "rand", "num", "prefix", "long"]))
     recs = list(zip(names, seqs))
-    source = rng.choice(["runs", "runs", "files_random", "files_kalign_vs_random", "identity", "files_with_allgap_row"])
+    source = rng.choice(["runs", "runs", "files_random", "files_kalign_vs_random", "identity", "files_with_allgap_row", "files_local_edits"])
     if n >= 1000:
         source = "identity" if rng.random() < 0.5 else "files_random"
         names = gen.names(rng, n, "s")
@@ -113,6 +140,12 @@ def run_case(ck, paths, reftool, idx, rel=None):
         if source == "files_random":
             R = random_alignment(rng, recs, rng.choice([0.1, 0.5]))
             T = random_alignment(rng, recs, rng.choice([0.1, 0.5, 2.0]))
+        elif source == "files_local_edits":
+            R = random_alignment(rng, recs, rng.choice([0.1, 0.5]))
+            T, ne = local_edits(rng, R)
+            if ne == 0:
+                T = random_alignment(rng, recs, 0.1)
+            ck.count("pairs_differing_by_a_few_local_shifts")
         elif source == "files_kalign_vs_random":
             res, rows = kal.cli_align(ck, paths, recs=recs, nthreads=1, ctx=ctx)
             if rows is None:
@@ -193,7 +226,7 @@ def run(ck, tier):
     if len(buckets) < 4:
         ck.note_inconclusive("score histogram spans only %d buckets" % len(buckets))
     ck.rule = ("pairs (r,t) of alignments of the same uniquely named sequences (2..60 rows, DNA/protein, mixed case): two kalign runs with different types/penalties in one "
-               "process, files in fasta/msf/clu written by independent writers (random alignments = low scores, kalign vs random, the same alignment with rows permuted and "
+               "process, files in fasta/msf/clu written by independent writers (random alignments = low scores, kalign vs random, a few local residue/gap shifts incl. opposite shifts of one letter in a row, the same alignment with rows permuted and "
                "all-gap columns inserted), each also with rows of either argument permuted; oracle: independent implementation of the definition (ref/reftool.c cmpscore), "
                "range [0,100], identity = 100, invariance under row order. Every case is distinct by content.")
     ck.assumptions = ["unique names; every file argument contains at least one gap character (the statement's exclusion)", "tolerance 1e-3 (float32 result)"]
